@@ -236,10 +236,14 @@ def second_run():
     evorig._hygiene()
     tr = evorig.Trace()
     with tr.recording():
-        ev = Evolver()
-        ev.queue_evolve_all_apps()
-        required = ev.get_evolution_required()
-        diff_empty = ev.diff_evolutions().is_empty(ignore_apps=True)
+        try:
+            ev = Evolver()
+            ev.queue_evolve_all_apps()
+            required = ev.get_evolution_required()
+            diff_empty = ev.diff_evolutions().is_empty(ignore_apps=True)
+        except Exception as e:
+            # a further run that cannot even be prepared is certainly not "nothing required"
+            return 'raises %s: %s' % (type(e).__name__, str(e)[:80]), False, tr.write_statements()
     return required, diff_empty, tr.write_statements()
 
 
